@@ -375,10 +375,15 @@ def _model_site(program: Program, site: Site, ex=None):
             if d is not None and d not in searched and module.scopes[d].parent is not sc:
                 searched.append(d)
     subs = []
-    for f in searched:
-        subs += _find_subscriptions(program, site, f, nested=False, ex=ex)
-    if not subs:
-        subs = _find_subscriptions(program, site, fn, nested=True, ex=ex)
+    try:
+        for f in searched:
+            subs += _find_subscriptions(program, site, f, nested=False, ex=ex)
+        if not subs:
+            subs = _find_subscriptions(program, site, fn, nested=True, ex=ex)
+    except AnalysisError:
+        if ex is None:
+            raise
+        subs = []       # e.g. a subscription helper whose handlers are its parameters: bound by executing the caller
     if not subs and ex is not None:
         subs = _subscriptions_by_execution(program, site, ex)
     site.subscriptions = subs
@@ -419,7 +424,7 @@ def _find_subscriptions(program, site: Site, f, nested, ex=None):
     return out
 
 
-def _handler_from_term(site: Site, which, t, node) -> Optional[HandlerRef]:
+def _handler_from_term(site: Site, which, t, node, capture=None) -> Optional[HandlerRef]:
     if t is None or t == ("const", None):
         return HandlerRef("absent")
     if t[0] == "attr" and t[2] in ("on_next", "on_error", "on_completed"):
@@ -443,7 +448,14 @@ def _handler_from_term(site: Site, which, t, node) -> Optional[HandlerRef]:
         if not posargs:
             raise AnalysisError("%s: %s handler %s takes no event parameter" % (fmod.where(fn), which, sc.qualname))
         event_param = posargs[0]
-    spec = HandlerSpec(fmod, fn, event_param, roles=site.roles, bound=bound, label=which, ctx=site.ctx)
+    ctx = site.ctx
+    if capture:
+        # the handler is a closure returned by a handler factory: the factory's parameters are bound by that call
+        ctx = dict(ctx)
+        for k, v in capture.items():
+            if v != ("ambiguous",) and k not in ctx:
+                ctx[k] = v
+    spec = HandlerSpec(fmod, fn, event_param, roles=site.roles, bound=bound, label=which, ctx=ctx)
     if site.instance_of:
         spec.instance = "%s::%s" % (site.anchor_rel, site.short.split(".")[0])
     return HandlerRef("fn", spec=spec, node=node)
@@ -454,10 +466,14 @@ def _subscriptions_by_execution(program, site: Site, ex) -> List[Subscription]:
     'subscribe and forward the termination' routine): found by enumerating the paths of the subscribe function."""
     from .terms import show
     spec = HandlerSpec(site.module, site.subscribe_fn, None, roles=site.roles, ctx=site.ctx)
+    capture = {}
+    ex.capture = capture
     try:
         paths = ex.run(spec, None, {}, max_iter=1)
     except AnalysisError:
         return []
+    finally:
+        ex.capture = None
     out, seen = [], set()
     order = ["on_next", "on_error", "on_completed", "scheduler"]
     for p in paths:
@@ -480,7 +496,7 @@ def _subscriptions_by_execution(program, site: Site, ex) -> List[Subscription]:
             handlers = {}
             if not passthrough:
                 for which in ("on_next", "on_error", "on_completed"):
-                    ref = _handler_from_term(site, which, exprs.get(which), e.node)
+                    ref = _handler_from_term(site, which, exprs.get(which), e.node, capture)
                     if ref is None:
                         raise AnalysisError("%s: cannot resolve the %s handler %s of %s" % (e.where(), which, show(exprs.get(which)), site.name))
                     handlers[which] = ref
@@ -517,8 +533,9 @@ def _resolve_handler(program, site: Site, in_fn, which, e, ex=None) -> HandlerRe
     elif ex is not None:
         # the handler is the value of an expression: a factory parameter bound by the instantiation context, a
         # conditional expression decided by it, functools.partial of one of these
-        t = ex.eval_in_scope(module, in_fn, e, ctx=site.ctx, roles=site.roles)
-        ref = _handler_from_term(site, which, t, e) if t is not None else None
+        capture = {}
+        t = ex.eval_in_scope(module, in_fn, e, ctx=site.ctx, roles=site.roles, capture=capture)
+        ref = _handler_from_term(site, which, t, e, capture) if t is not None else None
         if ref is not None:
             return ref
     if fn is None:
